@@ -19,8 +19,8 @@ package deviceshare
 //     an assigned one, nothing follows the delete.
 //   * The annotation of a pod never changes once written. An allocation is committed back to back
 //     with the Allocate that produced it (Reserve does both in one call).
-//   * Duplicates: re-delivery of the current version (add / update without change / repeated bind
-//     event), events of the still-unassigned object while the scheduler already reserved, update
+//   * Duplicates: re-delivery of the current version (add / update without change / update that
+//     only changes a label), events of the still-unassigned object while the scheduler already reserved, update
 //     and delete after the terminated update, and "ghost" pods that the cache never held (a pod that
 //     was already terminated when first listed, later deleted) whose annotation names devices that
 //     other pods hold now.
@@ -315,10 +315,10 @@ func (n *c07Node) mutate(r *kit.Rand) string {
 			break
 		}
 		d := kit.Pick(r, n.devs)
-		if bad := !d.present || !d.health || quotaIsZero(d.res) || n.typeGone[d.typ]; bad && r.Pct(60) {
+		if bad := !d.present || !d.health || c07IsZero(d.res) || n.typeGone[d.typ]; bad && r.Pct(60) {
 			// devices come back more often than they go, so that allocations stay possible
 			d.present, d.health, n.typeGone[d.typ] = true, true, false
-			if quotaIsZero(d.res) {
+			if c07IsZero(d.res) {
 				d.res = d.base.DeepCopy()
 			}
 			what = append(what, fmt.Sprintf("%s%d back: healthy %s", d.typ, d.minor, c07RL(d.res)))
@@ -329,7 +329,7 @@ func (n *c07Node) mutate(r *kit.Rand) string {
 			d.health = !d.health
 			what = append(what, fmt.Sprintf("%s%d health=%v", d.typ, d.minor, d.health))
 		case 1:
-			if quotaIsZero(d.res) {
+			if c07IsZero(d.res) {
 				d.res = d.base.DeepCopy()
 				what = append(what, fmt.Sprintf("%s%d resources restored", d.typ, d.minor))
 			} else {
@@ -374,7 +374,7 @@ func (n *c07Node) mutate(r *kit.Rand) string {
 	return strings.Join(what, "; ")
 }
 
-func quotaIsZero(rl corev1.ResourceList) bool {
+func c07IsZero(rl corev1.ResourceList) bool {
 	for _, q := range rl {
 		if !q.IsZero() {
 			return false
@@ -870,7 +870,7 @@ func c07Eligible(n *c07Node, t schedulingv1alpha1.DeviceType, per corev1.Resourc
 func TestVerifC07Ledger(t *testing.T) {
 	pl := c07Plugin(t)
 	ctx := context.TODO()
-	kit.Run(t, kit.Config{Property: "C07", Unit: "ledger", Quick: 3000, Thorough: 100000,
+	kit.Run(t, kit.Config{Property: "C07", Unit: "ledger", Quick: 2500, Thorough: 100000,
 		Rule: "histories of 60-200 operations over 3-8 pod names on 1-2 nodes of a real nodeDeviceCache: inventory events (Device add/update/delete: unhealthy, zero, missing minors/types, changed totals), allocate+commit through Plugin.PreFilter+Reserve or AutopilotAllocator.Allocate+updateCacheUsed, Unreserve / forget / terminated / delete, duplicate and stale pod events, ghost pods; GPU (whole, fractional by percent or bytes, N shares, multi), RDMA, FPGA, combined and constrained (topology scope, VF, joint, ApplyForAll) requests; ledger oracle on every node after every operation; distinct = (request class, path, outcome, eligible-vs-wanted class, live pods, inventory class) and (event kind, pod state); non-trivial = case with a granted and a refused allocation and an inventory change while pods held devices"},
 		func(c *kit.Case) {
 			r := c.R
@@ -940,7 +940,7 @@ func TestVerifC07Ledger(t *testing.T) {
 				}
 				bad := 0
 				for _, d := range n.devs {
-					if !d.reported(n) || !d.health || quotaIsZero(d.res) {
+					if !d.reported(n) || !d.health || c07IsZero(d.res) {
 						bad++
 					}
 				}
@@ -1347,8 +1347,15 @@ func TestVerifC07Ledger(t *testing.T) {
 							cache.onPodUpdate(p.assigned.DeepCopy(), p.assigned.DeepCopy())
 							what = fmt.Sprintf("update without change of bound %s on %s", p.name, p.node.name)
 						default:
-							cache.onPodUpdate(p.unassigned.DeepCopy(), p.assigned.DeepCopy())
-							what = fmt.Sprintf("repeated bind event of %s on %s", p.name, p.node.name)
+							// a later version of the bound pod (label change); the annotation stays
+							next := p.assigned.DeepCopy()
+							if next.Labels == nil {
+								next.Labels = map[string]string{}
+							}
+							next.Labels["rev"] = fmt.Sprint(op)
+							cache.onPodUpdate(p.assigned.DeepCopy(), next.DeepCopy())
+							p.assigned = next
+							what = fmt.Sprintf("update (new label) of bound %s on %s", p.name, p.node.name)
 						}
 					case c07Terminated:
 						if r.Bool() {
